@@ -40,6 +40,10 @@ func genC03(g gen.G) C03Case {
 		o.Cfg.Layout = true
 	}
 	w := g.World(o)
+	if !sweep && g.Chance(30) {
+		// a Terraform-like world: inferred bodies, self references, nested blocks, cross-path origins
+		w = g.RefWorld(g.Int(1, 2), false)
+	}
 	c := C03Case{
 		World:   w,
 		Queries: append(GenCalls(g, w, g.Int(6, 12)), wholePathCalls(w)...),
